@@ -36,6 +36,7 @@ type Tier struct {
 	MaxSteps  int
 	TimeoutMs int
 	Solver    string
+	Cross     string // second solver: the whole tier is run again with it and the verdicts must agree
 }
 
 type Spec struct {
@@ -56,6 +57,7 @@ type KnownFinding struct {
 	Harness  string `json:"harness"` // regexp
 	Kind     string `json:"kind"`
 	Site     string `json:"site"`
+	Msg      string `json:"msg,omitempty"` // regexp over the violation message (assertion text / panic text)
 	What     string `json:"what"`
 	Commit   string `json:"commit,omitempty"`
 }
@@ -84,6 +86,11 @@ func (k *KnownFinding) matches(prop string, v *gsx.Violation) bool {
 	}
 	if k.Harness != "" {
 		if ok, _ := regexp.MatchString("^(?:"+k.Harness+")$", v.Harness); !ok {
+			return false
+		}
+	}
+	if k.Msg != "" {
+		if ok, _ := regexp.MatchString(k.Msg, v.Msg); !ok {
 			return false
 		}
 	}
@@ -278,6 +285,24 @@ func propMain(id string, args []string) int {
 	return exit
 }
 
+func backendName(T *Tier) string {
+	k := "z3"
+	if T != nil && T.Solver != "" {
+		k = T.Solver
+	}
+	switch k {
+	case "z3":
+		return "z3 4.8.12 (-in, push/pop, one persistent process per worker)"
+	case "cvc5":
+		return "cvc5 1.0.x (--incremental, bit-blasting, one persistent process per worker)"
+	case "cvc5-int":
+		return "cvc5 1.0.x (--incremental --solve-bv-as-int=sum)"
+	case "z3-new":
+		return "z3 5.1.0 (-in)"
+	}
+	return k
+}
+
 func keysOf(m map[string]bool) []string {
 	out := []string{}
 	for k := range m {
@@ -313,7 +338,7 @@ func writeEvidence(spec *Spec, tier string, seed int, rep *gsx.Report, T *Tier, 
 	cov := map[string]interface{}{}
 	ev := Evidence{PropertyID: spec.ID, Tier: tier, Seed: seed, Level: "model_checking", Coverage: cov, WallS: wall.Seconds(), Violations: nviol, Verdict: verdict}
 	ev.Assumptions = append([]string{"64-bit platform (int = 64 bits)", "go/ssa (x/tools v0.29.0) is the semantics analysed; gc compiler agrees with it",
-		"z3 4.8.12 verdicts are trusted; any solver error or unknown makes the run inconclusive"}, spec.Assumptions...)
+		"SMT solver verdicts (z3 4.8.12 / cvc5 1.0) are trusted; any solver error or unknown makes the run inconclusive"}, spec.Assumptions...)
 	states, trans := 0, int64(0)
 	samples := []interface{}{}
 	perH := map[string]interface{}{}
@@ -364,7 +389,7 @@ func writeEvidence(spec *Spec, tier string, seed int, rep *gsx.Report, T *Tier, 
 		}
 		cov["functions_encoded_repo"] = repoFuncs
 		cov["functions_encoded_stdlib_and_harness"] = otherFuncs
-		cov["queries"] = map[string]interface{}{"total": rep.Queries, "sat": rep.Sat, "unsat": rep.Unsat, "unknown": rep.Unknown, "backend": "z3 4.8.12 (-in, push/pop, one process per worker)"}
+		cov["queries"] = map[string]interface{}{"total": rep.Queries, "sat": rep.Sat, "unsat": rep.Unsat, "unknown": rep.Unknown, "backend": backendName(T)}
 		cov["solver_time_s"] = rep.SolverTime.Seconds()
 		cov["instructions_executed"] = rep.Instrs
 		cov["exhaustive"] = !rep.TimedOut && verdict != "inconclusive"
